@@ -18,10 +18,14 @@ for d in sorted(glob.glob(V + "/seeded/C*")):
         res[name] = {"status": "patch-does-not-apply", "detail": a.stderr.strip()[:300]}
         print(name, "PATCH DOES NOT APPLY", a.stderr.strip()[:120]); continue
     sh(f"git -C /repo apply {patch}")
+    evf = f"{V}/evidence/{pid}.json"
+    evsave = open(evf).read() if os.path.exists(evf) else None
     try:
         r = sh(f"cd {V} && timeout 1500 python3 tools/check.py {pid} --tier quick")
     finally:
         sh("git -C /repo checkout -- . && git -C /repo clean -fdq -- cmd 2>/dev/null")
+        if evsave is not None:   # the evidence file describes runs on the unchanged tree only
+            open(evf, "w").write(evsave)
     lines = [l for l in r.stdout.splitlines() if not l.startswith("KNOWN-FINDING")]
     viol = [l for l in lines if l.startswith("VIOLATION")]
     broken = [l.strip() for l in lines if l.strip().startswith("broken:")]
